@@ -139,6 +139,16 @@ def hx(b: bytes) -> str:
     return b.hex() if b else "-"
 
 
+_debug_counter = [0]
+
+
+def debug_flip(every: int = 3) -> bool:
+    """True for every `every`-th call: benches construct that share of their connections / clients with debug logging
+    enabled (the log output itself is disabled process-wide; what changes is the `if debug_enabled:` code paths)"""
+    _debug_counter[0] += 1
+    return _debug_counter[0] % every == 0
+
+
 def run_driver(lines: list[str], timeout=1200) -> list[str] | None:
     """Pipe operation lines to the compiled Lean driver; one output line per input line.
     None = there is no driver (it did not build: a broken obligation, handled by the caller).  A driver that exists but
